@@ -8,7 +8,12 @@ there is a concrete failing input.
 Strengthening round 3: literals that are EXACTLY a spelling the statement dispatcher compares token text with (`::`, `=`, `matches`,
 `run`, `()` ... read from the tree under test), alone and with one leading / trailing blank, in every carrier incl. the literal as
 token 1 of the statement (`me <lit>`) and `function <lit>`; such literals hold no marker - the output line is located with a twin
-program whose literal is the marker."""
+program whose literal is the marker.
+Strengthening round 4 (c09_gen.py): literals that MIX non-ASCII text with every escape form (the decoding of __parse_string over
+code points: Model.Lit pyun / sp_*, theorem C09_decode_spelling; the named escape is modelled, the name table is passed per case); formatted
+text (`&x`, `&&`, `&<..>`) through the Gallina model of FormattedText (theorem C09_formatted_text_preserved) with blank runs at
+every position; more sinks (Text.title / subtitle / actionbar, printf, summon NBT, hover JSON, JSON files via `new`, @lazy bodies
+and arguments, Hardcode.repeat bodies, Debug.watch(src=true))."""
 from __future__ import annotations
 
 import ast
@@ -16,7 +21,10 @@ import json
 import re
 import warnings
 
-from lib import (Check, COMMON_TRUSTED, compile_batch, coq_str, known_for, run_coq_files, parse_nat_list)
+import os
+
+import c09_gen as G
+from lib import (Check, COMMON_TRUSTED, VERIF, compile_batch, coq_str, known_for, run_coq_files, parse_nat_list)
 
 PROP = "C09"
 warnings.filterwarnings("ignore")
@@ -132,15 +140,19 @@ LITERALS = [
     # outside the Coq model (oracle only)
     ("named-escape", '"', BS + "N{BULLET} ", ""),
 ]
-UNMODELLED_LITERALS = {"named-escape"}
+UNMODELLED_LITERALS = set()          # (round 4) \N{..} is modelled: the name table is a parameter passed per case
 ERROR_HINT = {"bad-x", "bad-x1", "bad-u", "bad-U-range", "bad-U-short", "raw-newline", "bt-edge-text", "bt-edge-text-last",
               "bt-bad-escape", "bt-one-line"}
 
 
-def literal_value(q: str, raw: str):
+def literal_value(q: str, raw: str, json_rules: bool = False):
     """The value the source literal denotes (specification: Python escape rules; for backtick strings the lines
-    between a leading and a trailing white-space-only line).  None = not a well-formed literal."""
+    between a leading and a trailing white-space-only line; json_rules: the body of `new <type>(<name>) {..}` is JSON).
+    None = not a well-formed literal."""
     try:
+        if json_rules:
+            value = json.loads(q + raw + q)
+            return value if isinstance(value, str) else None
         if q == "`":
             lines = raw.split("\n")
             if len(lines) < 3 or lines[0].strip() or lines[-1].strip():
@@ -306,13 +318,34 @@ CARRIERS = {
     # `function "<string>";` - the third statement form that copies a string literal to the output as it is (besides say; the
     # special case sits next to say's in the statement dispatcher).  Outside the Coq model (oracle only), exact literals only.
     "function-str": ('function %s;', None, 'function ', '', "raw", "function "),
+    # (round 4) more sinks
+    "text-title": ('Text.title(@a, %s);', "KText", 'title @a title ', '', "text", "title @a title "),
+    "text-subtitle": ('Text.subtitle(@a, %s);', "KText", 'title @a subtitle ', '', "text", "title @a subtitle "),
+    "text-actionbar": ('Text.actionbar(@a, %s);', "KText", 'title @a actionbar ', '', "text", "title @a actionbar "),
+    "printf": ('printf(%s);', "KText", 'tellraw @a ', '', "text", "tellraw @a "),
+    "nbt-summon": ('summon zombie ~ ~ ~ {CustomName:%s};', "KNbt", 'summon zombie ~ ~ ~ {CustomName:', '}', "nbt", "summon zombie ~ ~ ~ "),
+    "json-hover": ('tellraw @a {"text":"x","hoverEvent":{"action":"show_text","contents":%s}};', "KJson",
+                   'tellraw @a {"text":"x","hoverEvent":{"action":"show_text","contents":', '}}', "json", "tellraw @a "),
+    # a JSON file: `new advancements(<name>) {..}` - the body is JSON (json.loads of the raw bracket text, json.dumps into the
+    # file), so the literal is spelled by JSON's rules; top level only; oracle only
+    "json-file": ('new advancements(j%d) {"display":{"title":%s,"description":"d"}}', None, '"title": ', ',', "jsonfile", '"title": '),
 }
+JSON_PATH = {"json-hover": ["hoverEvent", "contents"]}      # where the literal sits in the JSON value (default: the text itself)
+TEXT_CARRIERS = [k for k, v in CARRIERS.items() if v[4] == "text"]
+ROUND4_CARRIERS = ["text-title", "text-subtitle", "text-actionbar", "printf", "nbt-summon", "json-hover"]
+# leaf wrappers: the statement reaches the compiler a second time as TEXT (the body of a lazy function / of Hardcode.repeat is
+# kept as source text, substituted and tokenised again at the call); its single command replaces the call, so the wrapper
+# adds nothing to the output line (no Coq context)
+LEAVES = ("lazybody", "lazyarg", "hcrepeat", "macro")
+# "macro": the literal is the body of a header macro (`#define LM<n> "<lit>"`, tokenised by the header's own Tokenizer) and the
+# statement holds the macro's name in its place
 JSON_TAIL = {"me-tail": " now"}          # text after the JSON value that belongs to the command, not to the value
 # `me-tail` is used for exact literals only: a string token followed by a keyword is "connected" when Token.end says so, and
 # Token.end of a string is col + len(repr(value)), which is not its source length when the source holds a raw tab, an escape or
 # a non-printable character (`me "a<TAB>b" now` is refused: "Expected whitespace between string and a keyword") - that is the
 # adjacency relation of C15 (there: out-of-scope event `s_ev`), not a literal that fails to reach the output.
 EXACT_ONLY_CARRIERS = {"me-tail", "function-str"}
+SPECIAL_CARRIERS = {"json-file"}
 ORACLE_ONLY_CARRIERS = {k for k, v in CARRIERS.items() if v[1] is None}
 MAIN_CARRIERS = ["say", "json-str", "json-obj", "nbt-merge", "text"]
 
@@ -382,21 +415,37 @@ def stack_name(st):
     return "/".join([st[0]] + st[1] + st[2])
 
 
-def build_item(idx: int, q: str, raw: str, carrier: str, stack) -> str:
+def build_item(idx: int, q: str, raw: str, carrier: str, stack, hdr: list | None = None) -> str:
     # (a backtick string glued to a preceding `:` / `[` is not recognised by the tokenizer - refused with a
     #  diagnostic, reported as a minor finding - so it gets a blank in front)
-    stmt = CARRIERS[carrier][0] % ((" " if q == "`" else "") + q + raw + q)
+    litsrc = (" " if q == "`" else "") + q + raw + q
+    if carrier == "json-file":
+        return CARRIERS[carrier][0] % (idx, litsrc)
+    stmt = CARRIERS[carrier][0] % litsrc
     top, blocks, stmts = stack
+    prelude = ""
+    if stmts and stmts[-1] in LEAVES:
+        leaf, stmts = stmts[-1], stmts[:-1]
+        if leaf == "lazybody":
+            prelude, stmt = f"@lazy function lz{idx}() {{ {stmt} }}\n", f"lz{idx}();"
+        elif leaf == "lazyarg":
+            prelude, stmt = f"@lazy function lz{idx}(zq) {{ {CARRIERS[carrier][0] % '$zq'} }}\n", f"lz{idx}({litsrc.strip()});"
+        elif leaf == "macro":
+            stmt = CARRIERS[carrier][0] % f"LM{idx}"
+            if hdr is not None:
+                hdr.append(f"#define LM{idx} {litsrc.strip()}")
+        else:
+            stmt = f"Hardcode.repeat((zq)=>{{ {stmt} }}, start=1, stop=2, step=1);"
     body = stmt
     for s in reversed(stmts):
         body = STMT_CTX[s][0](body)
     for b in reversed(blocks):
         body = BLOCK_CTX[b][0](body)
     if top == "func":
-        return f"function c{idx}() {{ {body} }}"
+        return prelude + f"function c{idx}() {{ {body} }}"
     if top == "method":
-        return f"class k{idx} {{ function m() {{ {body} }} }}"
-    return body
+        return prelude + f"class k{idx} {{ function m() {{ {body} }} }}"
+    return prelude + body
 
 
 def build_case(idx: int, lit, carrier: str, stack, cert_i: int) -> dict:
@@ -416,15 +465,24 @@ def build_case(idx: int, lit, carrier: str, stack, cert_i: int) -> dict:
     for b in blocks:
         ctx_terms.append(BLOCK_CTX[b][1](v))
     for s in stmts:
-        ctx_terms.append(STMT_CTX[s][1](v))
-    item = build_item(idx, q, raw, carrier, stack)
-    value = literal_value(q, raw)
+        if s not in LEAVES:
+            ctx_terms.append(STMT_CTX[s][1](v))
+    hdr: list = []
+    item = build_item(idx, q, raw, carrier, stack, hdr)
+    kind = CARRIERS[carrier][4]
+    value = literal_value(q, raw, json_rules=(kind == "jsonfile"))
+    fmt_bad = False
+    if kind == "text" and value is not None and "&" in value:
+        (fk, _fx), br = G.fmt_expect(value)
+        fmt_bad = fk == "diag" or name.startswith("fmt:bad-")
     return dict(idx=idx, lit=name, q=q, raw=raw, carrier=carrier, stack=stack_name(stack), ctxs=blocks + stmts,
-                cert=cert_i, item=item, ctx_terms=ctx_terms, value=value, exact=exact,
+                cert=cert_i, item=item, ctx_terms=ctx_terms, value=value, exact=exact, header="\n".join(hdr) or None,
                 twin=build_item(idx, '"', mark(idx), carrier, stack) if exact else None,
-                hint_error=(name in ERROR_HINT) or (carrier == "say" and value is not None and ("\n" in value or "\r" in value)),
+                hint_error=(name in ERROR_HINT) or fmt_bad or
+                           (carrier == "say" and value is not None and ("\n" in value or "\r" in value)),
+                # formatted text: only the nbt property `&<a::b>` is outside the Coq model
                 expect_unmodelled=(name in UNMODELLED_LITERALS) or
-                                  (carrier == "text" and value is not None and "&" in value))
+                                  (kind == "text" and value is not None and bool(re.search(r"&<[^>]*::", value))))
 
 
 def gen_cases(rng, tier: str, exact=()) -> list[dict]:
@@ -434,7 +492,7 @@ def gen_cases(rng, tier: str, exact=()) -> list[dict]:
         for st in CORE_STACKS:
             for ca in MAIN_CARRIERS:
                 combos.append((lit, ca, st))
-    marker_carriers = [c for c in CARRIERS if c not in EXACT_ONLY_CARRIERS]
+    marker_carriers = [c for c in CARRIERS if c not in EXACT_ONLY_CARRIERS and c not in SPECIAL_CARRIERS and c not in ROUND4_CARRIERS]
     others = [c for c in marker_carriers if c not in MAIN_CARRIERS]
     if tier == "thorough":
         for lit in LITERALS:
@@ -481,7 +539,11 @@ def gen_cases(rng, tier: str, exact=()) -> list[dict]:
     for lit in exact:
         if lit[3] == "":
             for ca in CARRIERS:
+                if ca in SPECIAL_CARRIERS:
+                    continue
                 combos.append((lit, ca, ("func", [], [])))
+                if ca in ROUND4_CARRIERS and tier != "thorough":
+                    continue
                 # behind `execute ... run` the statement dispatcher runs again in another state (is_execute, key_pos > 0)
                 combos.append((lit, ca, ("func", [], ["execrun"])))
                 if tier == "thorough":
@@ -493,20 +555,106 @@ def gen_cases(rng, tier: str, exact=()) -> list[dict]:
                     combos.append((lit, ca, all_stacks[k % len(all_stacks)]))
                 k += 1
         else:
-            for ca in (CARRIERS if tier == "thorough" else blank_carriers):
+            for ca in ([c for c in CARRIERS if c not in SPECIAL_CARRIERS] if tier == "thorough" else blank_carriers):
                 combos.append((lit, ca, all_stacks[k % len(all_stacks)]))
                 k += 1
+    combos.extend(round4_combos(rng, tier))
     cases = []
     for i, (lit, ca, st) in enumerate(combos):
         cases.append(build_case(i, lit, ca, st, i % len(CERTS)))
     return cases
 
 
+def json_spelling(value: str, ascii_only: bool):
+    """(text before the marker slot, after) does not apply here: returns the JSON spelling of a value (between the quotes)"""
+    return json.dumps(value, ensure_ascii=ascii_only)[1:-1]
+
+
+def round4_combos(rng, tier: str):
+    """(round 4) mixed literals x every carrier and sink; formatted text x the Text.* / printf carriers; leaf wrappers"""
+    combos = []
+    thorough = tier == "thorough"
+    plain = ("func", [], [])
+    marker_carriers = [c for c in CARRIERS if c not in EXACT_ONLY_CARRIERS and c not in SPECIAL_CARRIERS]
+    others = [c for c in marker_carriers if c not in MAIN_CARRIERS]
+    all_stacks = CORE_STACKS + MORE_STACKS
+    leaf_hosts = [("func", [], []), ("top", [], []), ("func", ["ifonly"], []), ("func", ["else"], []), ("func", [], ["execrun"]),
+                  ("func", ["while"], []), ("func", ["execblock", "multi"], [])]
+
+    def with_leaf(st, leaf):
+        # (behind `execute .. run` Hardcode.repeat gets an anonymous function of its own - a boundary, not a leaf)
+        if leaf == "hcrepeat" and st[2]:
+            st = (st[0], st[1] + ["execblock"], [])
+        return (st[0], st[1], st[2] + [leaf])
+
+    mixed = G.mixed_literals() + G.random_mixed(rng, 500 if thorough else 70)
+    k = 0
+    for lit in mixed:
+        rnd = lit[0].startswith("mix:random") or lit[0].startswith("mix:allesc")
+        if rnd and not thorough:
+            combos.append((lit, marker_carriers[k % len(marker_carriers)], all_stacks[k % len(all_stacks)]))
+            k += 1
+            continue
+        for ca in (marker_carriers if thorough else MAIN_CARRIERS):
+            combos.append((lit, ca, plain))
+        for _ in range(6 if thorough else 3):
+            combos.append((lit, others[k % len(others)], all_stacks[(k * 7) % len(all_stacks)]))
+            combos.append((lit, MAIN_CARRIERS[k % len(MAIN_CARRIERS)], all_stacks[(k * 5 + 3) % len(all_stacks)]))
+            k += 1
+        if lit[1] != "`":
+            for leaf in (LEAVES if thorough else [LEAVES[k % len(LEAVES)]]):
+                if leaf == "macro" and "\n" in lit[2] + lit[3]:
+                    leaf = "lazyarg"
+                combos.append((lit, marker_carriers[k % len(marker_carriers)], with_leaf(leaf_hosts[k % len(leaf_hosts)], leaf)))
+                k += 1
+    # every older literal through the leaf wrappers and the new sinks
+    for lit in LITERALS:
+        for ca in ROUND4_CARRIERS:
+            if thorough or k % 2:
+                combos.append((lit, ca, all_stacks[k % len(all_stacks)]))
+            k += 1
+        if lit[1] != "`" and lit[0] not in ERROR_HINT:
+            for leaf in LEAVES:
+                if leaf == "macro" and "\n" in lit[2] + lit[3]:
+                    continue
+                for ca in (MAIN_CARRIERS if thorough else [MAIN_CARRIERS[k % len(MAIN_CARRIERS)]]):
+                    combos.append((lit, ca, with_leaf(leaf_hosts[k % len(leaf_hosts)], leaf)))
+                    k += 1
+    # JSON files: the value of every well-formed literal, spelled by JSON's rules (raw non-ASCII / \uXXXX alternating)
+    seen = set()
+    for lit in LITERALS + mixed:
+        if lit[1] == "`":
+            continue
+        slot = "@SLOT@"
+        v = literal_value(lit[1], lit[2] + slot + lit[3])
+        if v is None or v in seen or any(0xD800 <= ord(ch) < 0xE000 for ch in v):
+            continue
+        seen.add(v)
+        pre, post = v.split(slot, 1) if v.count(slot) == 1 else (v.replace(slot, ""), "")
+        ascii_only = bool(k % 2)
+        k += 1
+        combos.append((("json:" + lit[0], '"', json_spelling(pre, ascii_only), json_spelling(post, ascii_only)), "json-file", ("top", [], [])))
+    # formatted text
+    fmt = G.fmt_literals() + G.random_fmt(rng, 600 if thorough else 80)
+    for lit in fmt:
+        if thorough:
+            for ca in TEXT_CARRIERS:
+                combos.append((lit, ca, plain))
+            for _ in range(3):
+                combos.append((lit, TEXT_CARRIERS[k % len(TEXT_CARRIERS)], all_stacks[k % len(all_stacks)]))
+                k += 1
+        else:
+            combos.append((lit, TEXT_CARRIERS[k % len(TEXT_CARRIERS)], plain))
+            combos.append((lit, TEXT_CARRIERS[(k + 1 + k // len(TEXT_CARRIERS)) % len(TEXT_CARRIERS)], all_stacks[k % len(all_stacks)]))
+            k += 1
+    return combos
+
+
 # --------------------------------------------------------------------------- real compiler
-def find_marker_line(files: dict, marker: str):
+def find_marker_line(files: dict, marker: str, suffix: str = ".mcfunction"):
     hits = []
     for path, text in files.items():
-        if not path.endswith(".mcfunction"):
+        if not path.endswith(suffix):
             continue
         for line in text.split("\n"):
             if marker in line:
@@ -514,12 +662,12 @@ def find_marker_line(files: dict, marker: str):
     return hits
 
 
-def outcome_of(res: dict, marker: str) -> dict:
+def outcome_of(res: dict, marker: str, suffix: str = ".mcfunction") -> dict:
     if not res["ok"]:
         if res.get("jmc"):
             return dict(kind="diag", msg=res.get("msg", "")[:300])
         return dict(kind="crash", exc=res.get("exc"), msg=res.get("msg", "")[:300], frame=res.get("frame"))
-    hits = find_marker_line(res["files"], marker)
+    hits = find_marker_line(res["files"], marker, suffix)
     if len(hits) == 1:
         return dict(kind="line", line=hits[0][1], path=hits[0][0])
     return dict(kind="missing", hits=[h[1] for h in hits][:5])
@@ -630,18 +778,23 @@ def run_real_marked(cases: list[dict]) -> None:
         part = [c for c in batched if c["cert"] == ci]
         for s in range(0, len(part), 120):
             groups.append(part[s:s + 120])
-    jobs = [dict(src="\n".join(c["item"] for c in g), cert=cert_text(CERTS[g[0]["cert"]])) for g in groups]
+    jobs = [dict(src="\n".join(c["item"] for c in g), cert=cert_text(CERTS[g[0]["cert"]]),
+                 header="\n".join(c["header"] for c in g if c.get("header")) or None) for g in groups]
     results = compile_batch(jobs, chunk=4)
     for g, r in zip(groups, results):
         if r["ok"]:
             for c in g:
-                c["real"] = outcome_of(r, mark(c["idx"]))
+                c["real"] = outcome_of(r, mark(c["idx"]), suffix_of(c))
         else:
             singles.extend(g)
-    jobs = [dict(src=c["item"], cert=cert_text(CERTS[c["cert"]])) for c in singles]
+    jobs = [dict(src=c["item"], cert=cert_text(CERTS[c["cert"]]), header=c.get("header")) for c in singles]
     results = compile_batch(jobs, chunk=100)
     for c, r in zip(singles, results):
-        c["real"] = outcome_of(r, mark(c["idx"]))
+        c["real"] = outcome_of(r, mark(c["idx"]), suffix_of(c))
+
+
+def suffix_of(case) -> str:
+    return ".json" if CARRIERS[case["carrier"]][4] == "jsonfile" else ".mcfunction"
 
 
 # --------------------------------------------------------------------------- oracle on the real output
@@ -683,13 +836,21 @@ def json_texts(obj) -> str:
 
 
 def expected_text(case) -> str | None:
-    """the value Minecraft should see; None = this carrier gives the text a meaning of its own (Text.* formatting)"""
+    """the value Minecraft should see; None = formatted text that the character loop of FormattedText refuses"""
     v = case["value"]
-    if case["carrier"] == "text" and "&" in v:
-        if re.search(r"&(?!&)", v.replace("&&", "")):
-            return None
-        return v.replace("&&", "&")
+    if CARRIERS[case["carrier"]][4] == "text" and "&" in v:
+        (fk, fx), _br = G.fmt_expect(v)
+        return fx if fk == "text" else None
     return v
+
+
+def fmt_verdict(case):
+    """(expects a diagnostic for sure, may be refused for its bracket properties)"""
+    v = case["value"]
+    if CARRIERS[case["carrier"]][4] != "text" or v is None or "&" not in v:
+        return False, False
+    (fk, _fx), br = G.fmt_expect(v)
+    return fk == "diag", br
 
 
 def oracle(case) -> dict | None:
@@ -698,11 +859,12 @@ def oracle(case) -> dict | None:
     kind = CARRIERS[case["carrier"]][4]
     if real["kind"] == "crash":
         return dict(kind="non-jmc-exception", exc=real.get("exc"), msg=real.get("msg"), frame=real.get("frame"))
+    fmt_diag, fmt_brackets = fmt_verdict(case)
     if real["kind"] == "diag":
         if v is None or (kind == "say" and ("\n" in v or "\r" in v)):
             return None
-        if kind == "text" and expected_text(case) is None:
-            return None
+        if fmt_diag or fmt_brackets:
+            return None           # (whether a bracket's properties are acceptable is judged by the Coq model: correspondence)
         return dict(kind="valid-literal-refused", msg=real.get("msg"))
     if real["kind"] == "missing":
         return dict(kind="literal-lost", hits=real.get("hits"))
@@ -714,8 +876,21 @@ def oracle(case) -> dict | None:
         return dict(kind="malformed-literal-accepted", line=line)
     exp = expected_text(case)
     if exp is None:
-        return None
+        why = G.fmt_expect(v)[0][1]
+        return dict(kind="unknown-format-code-accepted" if why.startswith("unknown code") else "malformed-formatted-text-accepted",
+                    why=why, actual=line)
     word = CARRIERS[case["carrier"]][5]
+    if kind == "jsonfile":
+        t = line.strip()
+        if not (t.startswith(word) and t.endswith(",")):
+            return dict(kind="json-shape-differs", expected_prefix=word, actual=line)
+        try:
+            got = json.loads(t[len(word):-1])
+        except Exception as e:  # noqa
+            return dict(kind="json-unreadable", error=str(e), actual=line)
+        if got != exp:
+            return dict(kind="json-value-differs", expected=exp, actual_value=got, actual=line)
+        return None
     if kind in ("say", "raw"):
         cmd = word + exp
         if not line.endswith(cmd):
@@ -744,6 +919,8 @@ def oracle(case) -> dict | None:
                 obj = json.loads(payload)
             except Exception as e:  # noqa
                 return dict(kind="json-unreadable", error=str(e), actual=line)
+            for key in JSON_PATH.get(case["carrier"], []):
+                obj = obj.get(key) if isinstance(obj, dict) else None
             got = json_texts(obj)
             if got != exp:
                 return dict(kind="json-value-differs", expected=exp, actual_value=got, actual=line)
@@ -773,12 +950,25 @@ def oracle(case) -> dict | None:
 
 
 # --------------------------------------------------------------------------- Coq side
-HEADER = ("From Coq Require Import ZArith Bool String Ascii List.\n"
-          "From JMCV Require Import Model.Lit Run.C09.\nImport ListNotations.\nOpen Scope Z_scope.\n")
+HEADER0 = ("From Coq Require Import ZArith Bool String Ascii List Uint63.\n"
+           "From JMCV Require Import Model.Lit Run.C09.\nOpen Scope Z_scope.\n")
+HEADER1 = "Import ListNotations.\n"      # (the array literals `[| .. |]` do not parse once ListNotations is imported: they come first)
+_ARRAYS: list[str] = []
+
+
+def arrays_block() -> str:
+    """definitions of the arrays registered by zs() since the last call"""
+    out = "".join(f"Definition a{i} : str := ua [|{body}|0|]%uint63.\n" for i, body in enumerate(_ARRAYS))
+    _ARRAYS.clear()
+    return out
 
 
 def zs(s: str) -> str:
-    return "[" + ";".join(str(ord(ch)) for ch in s) + "]"
+    """code points as a Coq term of type str; longer texts as a primitive array (parsed several times faster: Run/C09.v `ua`)"""
+    if len(s) < 4:
+        return "[" + ";".join(str(ord(ch)) for ch in s) + "]"
+    _ARRAYS.append(";".join(str(ord(ch)) for ch in s))
+    return f"a{len(_ARRAYS) - 1}"
 
 
 def coq_lit(s: str) -> str:
@@ -788,23 +978,33 @@ def coq_lit(s: str) -> str:
 
 def case_term(c) -> str:
     ca = CARRIERS[c["carrier"]]
-    k = "KSay" if ca[1] == "KSay" else f"({ca[1]} {coq_lit(ca[2])} {coq_lit(ca[3])})"
+    if ca[1] == "KSay":
+        k = "KSay"
+    elif ca[1] == "KText":
+        k = f"(KText {coq_lit(ca[2])} {coq_lit(ca[3])} {coq_lit(CERTS[c['cert']]['VAR'])})"
+    else:
+        k = f"({ca[1]} {coq_lit(ca[2])} {coq_lit(ca[3])})"
     v = c["value"] or ""
+    names = "; ".join(f"({zs(n)}, {cp})" for n, cp in G.names_table(c["raw"]))
     np = sorted({ord(ch) for ch in v if ord(ch) >= 128 and not ch.isprintable()})
     r = c["real"]
     real = {"line": lambda: f"(RLine {zs(r['line'])})", "diag": lambda: "RDiag", "crash": lambda: "RCrash",
             "missing": lambda: "RMissing"}[r["kind"]]()
     return (f"mkCase {ord(c['q'])} {zs(c['raw'])} {k} [{'; '.join(c['ctx_terms'])}] "
-            f"[{';'.join(map(str, np))}] {real}")
+            f"[{';'.join(map(str, np))}] [{names}] {real}")
 
 
-def eval_cases(cases, per_file=300):
+def eval_cases(cases, per_file=300, pinned=True):
+    """pinned=False: only the (repaired) model is evaluated - the pinned-tree model is needed only to classify a failing case
+    against an entry of known_findings.json and is then evaluated for the failing cases alone"""
     files = []
     for fi, start in enumerate(range(0, len(cases), per_file)):
         chunk = cases[start:start + per_file]
-        body = HEADER + "Definition cases : list case := [\n" + ";\n".join(case_term(c) for c in chunk) + "\n].\n"
+        _ARRAYS.clear()
+        terms = ";\n".join(case_term(c) for c in chunk)
+        body = HEADER0 + arrays_block() + HEADER1 + "Definition cases : list case := [\n" + terms + "\n].\n"
         body += "Eval vm_compute in mismatches cases.\nEval vm_compute in unmodelled cases.\n"
-        body += "Eval vm_compute in mismatches_pinned cases.\n"
+        body += "Eval vm_compute in mismatches_pinned cases.\n" if pinned else "Eval vm_compute in mismatches (@nil case).\n"
         files.append((f"cases_{fi}.v", body))
     outs = run_coq_files(PROP, files)
     mism, unmod, mism_pinned, errs = set(), set(), set(), []
@@ -824,7 +1024,9 @@ def eval_cases(cases, per_file=300):
 
 def model_lines(cases) -> list[str]:
     """the model's output for a few cases (to show in a replay file)"""
-    body = HEADER + "\n".join(f"Eval vm_compute in show (model_out ({case_term(c)}))." for c in cases) + "\n"
+    _ARRAYS.clear()
+    terms = [case_term(c) for c in cases]
+    body = HEADER0 + arrays_block() + HEADER1 + "\n".join(f"Eval vm_compute in show (model_out ({t}))." for t in terms) + "\n"
     (ok, out), = run_coq_files(PROP, [("show.v", body)], clean=False)
     if not ok:
         return [f"<coq failed: {out[-500:]}>"] * len(cases)
@@ -840,8 +1042,31 @@ def model_lines(cases) -> list[str]:
 # proposed entries of known_findings.json: genuine defects of /repo HEAD found by the exact-literal stream (round 3), each
 # repaired by a patch under /verif/fixes/.  Once a patch is committed the failure no longer occurs; delete its entry here
 # so that a regression is a VIOLATION.
-_FIX = "fixes/C09-string-literal-taken-for-operator.patch"
-PROPOSED_KNOWN = {}     # all former entries were repaired by fix commit dc40110 (known_findings.json is the only authority)
+# (round 4) the proposals are read from a file, never hard-coded: reports/C09-known_findings-4.json lists the defects of /repo HEAD
+# repaired by fixes/C09-unknown-format-code.patch and fixes/C09-debug-watch-json-escape.patch.  The integrator deletes an entry
+# (or the file) when he commits its patch; VERIF_NO_PROPOSED=1 = the state after that (a regression is then a VIOLATION).
+PROPOSED_FILES = ["reports/C09-known_findings-4.json"]
+
+
+def proposed_known() -> dict:
+    out = {}
+    if os.environ.get("VERIF_NO_PROPOSED"):
+        return out
+    for rel in PROPOSED_FILES:
+        f = VERIF / rel
+        if not f.exists():
+            continue
+        try:
+            entries = json.loads(f.read_text()).get("findings", [])
+        except (ValueError, AttributeError):
+            continue
+        for e in entries:
+            if e.get("property") == PROP and e.get("id"):
+                out.setdefault(e["id"], e)
+    return out
+
+
+PROPOSED_KNOWN = proposed_known()
 
 
 def known_class(case, fail):
@@ -887,11 +1112,85 @@ def root_of(case, fail) -> str:
 def replay_obj(case, fail) -> dict:
     return dict(kind=fail["kind"], literal=case["lit"], source_literal=case["q"] + case["raw"] + case["q"],
                 exact=bool(case.get("exact")), twin_src=case.get("twin"), quote=case["q"],
-                carrier=case["carrier"], contexts=case["stack"], src=case["item"], jmc_txt=CERTS[case["cert"]],
+                carrier=case["carrier"], contexts=case["stack"], src=case["item"], header=case.get("header"), jmc_txt=CERTS[case["cert"]],
                 marker=mark(case["idx"]), expected_value=case["value"], failure=fail,
                 real=case["real"], case=dict(idx=case["idx"], lit=case["lit"], carrier=case["carrier"],
                                              stack=case["stack"], cert=case["cert"]),
                 how="./check C09 --replay <this file>")
+
+
+# --------------------------------------------------------------------------- Debug.watch(src=true)  (round 4)
+# The watched variable's operations print the SOURCE LINE they come from: the line (which may hold any string literal) is
+# copied into a tellraw JSON.  Debug.watch must precede every variable operation, so each case is a program of its own.
+WATCH_HEAD = "Debug.watch($w, src=true);"
+
+
+def watch_cases(rng, tier: str) -> list[dict]:
+    lits = [l for l in LITERALS if l[1] != "`" and l[0] not in ERROR_HINT and "\n" not in l[2] + l[3]]
+    mixed = [l for l in G.mixed_literals() if l[1] != "`" and "\n" not in l[2] + l[3]]
+    pick = lits + mixed if tier == "thorough" else lits[::3] + mixed[::9] + [l for l in mixed if l[0].startswith("mix:cafe")]
+    out = []
+    for i, (name, q, pre, post) in enumerate(pick):
+        m = f"W{i:04d}Q"
+        line = f"function w{i}() {{ $w = {i}; tellraw @a {q}{pre}{m}{post}{q}; }}"
+        if literal_value(q, pre + m + post) is None:
+            continue
+        out.append(dict(lit=name, marker=m, line=line, src=WATCH_HEAD + "\n" + line, cert=i % len(CERTS)))
+    # the selector / objective are copied as well
+    for i, sel in enumerate(['@s[name="A"]', "@e[tag=\u00e9,limit=1]", '@a[nbt={Tags:["x\\y"]}]']):
+        m = f"W9{i:03d}Q"
+        line = f"function ws{i}() {{ obj:{sel} = {i}; say {m}; }}"
+        out.append(dict(lit=f"selector-{i}", marker=m, line=line, selector=sel, cert=i % len(CERTS),
+                        src=f"Debug.watch(obj:{sel}, src=true);\n" + line))
+    return out
+
+
+def watch_oracle(case, res) -> dict | None:
+    if not res["ok"]:
+        if res.get("jmc"):
+            return dict(kind="valid-literal-refused", msg=res.get("msg", "")[:300]) if "selector" not in case else None
+        return dict(kind="non-jmc-exception", exc=res.get("exc"), msg=res.get("msg", "")[:300], frame=res.get("frame"))
+    hits = [l for p, t in res["files"].items() if "__debug_watch__" in p for l in t.split("\n") if " run tellraw @a " in l]
+    if not hits:
+        return dict(kind="literal-lost", hits=[], why="no Debug.watch report was emitted")
+    line = hits[0]
+    payload = line[line.index(" run tellraw @a ") + len(" run tellraw @a "):]
+    try:
+        obj = json.loads(payload)
+    except Exception as e:  # noqa
+        return dict(kind="json-unreadable", error=str(e), actual=line)
+    texts = [x.get("text") for x in obj if isinstance(x, dict)]
+    if case["line"] not in texts:
+        return dict(kind="json-value-differs", expected=case["line"], actual_value=texts[-1] if texts else None, actual=line)
+    if "selector" in case and not any(isinstance(x, dict) and x.get("selector") == case["selector"] for x in obj):
+        return dict(kind="json-value-differs", expected=case["selector"], actual_value=[x for x in obj if isinstance(x, dict) and "selector" in x], actual=line)
+    return None
+
+
+def run_watch(ck, tier: str) -> dict:
+    cases = watch_cases(ck.rng, tier)
+    results = compile_batch([dict(src=c["src"], cert=cert_text(CERTS[c["cert"]])) for c in cases], chunk=40)
+    fails = []
+    for c, r in zip(cases, results):
+        f = watch_oracle(c, r)
+        if f:
+            fails.append((c, f))
+    reported = set()
+    for c, f in fails:
+        pseudo = dict(raw=c["line"], value=c["line"], ctxs=[], carrier="debug-watch", q='"')
+        kf = known_class(pseudo, f)
+        if kf:
+            ck.known(kf["id"], kf["what"])
+            continue
+        key = f["kind"] + (":selector" if "selector" in c else "")
+        if key in reported:
+            continue
+        reported.add(key)
+        ck.violation(dict(kind=f["kind"], sink="Debug.watch(src=true): the source line is copied into a tellraw", literal=c["lit"],
+                          src=c["src"], jmc_txt=CERTS[c["cert"]], watch=dict(line=c["line"], selector=c.get("selector"), lit=c["lit"]),
+                          expected_value=c["line"], failure=f, same_class_in_cases=sum(1 for _c, g in fails if g["kind"] == f["kind"]),
+                          how="./check C09 --replay <this file>"))
+    return dict(cases=len(cases), failures=len(fails))
 
 
 # --------------------------------------------------------------------------- main
@@ -904,7 +1203,10 @@ def main(tier: str) -> int:
         "json_unquote / nbt_unquote / nbt_unquote_legacy in Model/Lit.v: hand-written specification of what Minecraft reads (RFC 8259, SNBT)",
         "carrier templates (text around the literal) and the tokenisation of the brackets: by correspondence only",
         "Python's str.isprintable Unicode table: a parameter of the theorems; the harness passes the actual answers per case",
-        "Text.* (FormattedText) with '&' codes and \\N{..} escapes: outside the Coq model, checked only by the decoding oracle",
+        "Model/Lit.v section 2b: hand-written port of command/utils.py FormattedText (__parse, __push, __parse_code, __parse_bracket, "
+        "__str__) for pack formats below 19 with no TextProp declared; the nbt property `&<a::b>` is outside the model",
+        "Python's Unicode name table (\\N{name}): a parameter of the theorems; the harness passes unicodedata's answers per case",
+        "JSON files (`new`), function \"<string>\" and Debug.watch(src=true): decoding oracle only",
         "the oracle (ast.literal_eval of the source literal, json.loads, a 30-line SNBT unquote in c09.py) is used to find failing inputs",
     ]
     ck.proof(extra_targets=["Run/C09.vo"])
@@ -924,10 +1226,17 @@ def main(tier: str) -> int:
         ck.violation(dict(kind="generator-ineffective", what="fewer than 60 dispatch spellings could be read from the source tree "
                           "(files moved or no longer parse?); the exact-literal stream runs on the fixed floor only", info=exact_info),
                      no_input=True)
+    import time
+    t0 = time.time()
     cases = gen_cases(ck.rng, tier, exact)
+    t1 = time.time()
     run_real(cases)
+    t2 = time.time()
     coq_idx = [i for i, c in enumerate(cases) if c["carrier"] not in ORACLE_ONLY_CARRIERS]
-    mism, unmod, mism_pinned, errs = eval_cases([cases[i] for i in coq_idx])
+    mism, unmod, _none, errs = eval_cases([cases[i] for i in coq_idx], pinned=False)
+    mism_pinned = set()
+    t3 = time.time()
+    ck.cov["phase_seconds"] = dict(generate=round(t1 - t0, 1), compile=round(t2 - t1, 1), coq=round(t3 - t2, 1))
     mism, unmod, mism_pinned = ({coq_idx[i] for i in x} for x in (mism, unmod, mism_pinned))
     for e in errs:
         ck.violation(dict(kind="correspondence-file-failed", log=e), no_input=True)
@@ -938,6 +1247,13 @@ def main(tier: str) -> int:
         f = oracle(c)
         if f:
             fails[i] = f
+    need_pinned = [i for i, f in fails.items() if i in set(coq_idx) and known_class(cases[i], f)
+                   and known_class(cases[i], f)["id"] not in PROPOSED_KNOWN]
+    if need_pinned:
+        _m, _u, mp, errs2 = eval_cases([cases[i] for i in need_pinned])
+        mism_pinned = {need_pinned[j] for j in mp}
+        for e in errs2:
+            ck.violation(dict(kind="correspondence-file-failed", log=e), no_input=True)
     reported = {}
     for i, f in fails.items():
         c = cases[i]
@@ -955,6 +1271,8 @@ def main(tier: str) -> int:
         o["same_class_in_cases"] = len(idxs)
         o["distinct_failure_classes"] = len(reported)
         ck.violation(o)
+
+    watch_info = run_watch(ck, tier)
 
     # ---- correspondence: differing cases that the oracle does not explain
     silent = sorted(i for i in mism if i not in fails)
@@ -998,6 +1316,14 @@ def main(tier: str) -> int:
                             recompiled_alone=sum(1 for c in cases if c["exact"] and "collateral" in c["real"]),
                             rule="literal == a spelling the dispatcher compares token text with (read from the tree), alone / one leading / "
                                  "one trailing blank; no marker inside: the line is located by a twin program with the literal \"<marker>\""),
+        round4=dict(mixed_literals=len(G.mixed_literals()), formatted_literals=len(G.fmt_literals()),
+                    non_ascii_classes=len(G.NONASCII), escape_forms=len(G.ESCAPES),
+                    mixed_cases=sum(1 for c in cases if c["lit"].startswith("mix:")),
+                    formatted_cases=sum(1 for c in cases if c["lit"].startswith("fmt:")),
+                    json_file_cases=sum(1 for c in cases if c["carrier"] == "json-file"),
+                    leaf_wrapper_cases={l: sum(1 for c in cases if l in c["ctxs"]) for l in LEAVES},
+                    named_escape_cases=sum(1 for c in cases if G.names_table(c["raw"])),
+                    debug_watch=watch_info, proposed_known=sorted(PROPOSED_KNOWN)),
         correspondence="model line == real marker line (exact code points) for every modelled case; "
                        "diagnostic <-> diagnostic; plus decode-and-compare oracle on every real line",
     ))
@@ -1011,7 +1337,17 @@ def replay(path: str) -> int:
         print("this replay records a broken proof/correspondence, not an input:", obj.get("kind"), obj.get("what", ""))
         print(json.dumps(obj, indent=1)[:3000])
         return 1
-    res, = compile_batch([dict(src=obj["src"], cert=cert_text(obj["jmc_txt"]))])
+    res, = compile_batch([dict(src=obj["src"], cert=cert_text(obj["jmc_txt"]), header=obj.get("header"))])
+    if "watch" in obj:
+        w = obj["watch"]
+        case = dict(line=w["line"], lit=w["lit"])
+        if w.get("selector"):
+            case["selector"] = w["selector"]
+        f = watch_oracle(case, res)
+        print("program        :", obj["src"])
+        print("expected text  :", repr(w["line"]))
+        print("verdict        :", "FAILS: " + json.dumps(f, ensure_ascii=False) if f else "passes")
+        return 1 if f else 0
     co = obj["case"]
     q = obj.get("quote") or [l for l in LITERALS if l[0] == co["lit"]][0][1]
     # rebuild the case around the stored program
@@ -1023,8 +1359,10 @@ def replay(path: str) -> int:
         case["real"] = exact_outcome(twin, res, case, alone=True)
         print("twin program   :", obj["twin_src"])
     else:
-        case["real"] = outcome_of(res, obj["marker"])
+        case["real"] = outcome_of(res, obj["marker"], suffix_of(case))
     f = oracle(case)
+    if obj.get("header"):
+        print("header         :", obj["header"])
     print("source literal :", obj["source_literal"])
     print("expected value :", repr(obj["expected_value"]))
     print("actual         :", json.dumps(case["real"], ensure_ascii=False))
